@@ -671,6 +671,8 @@ func (s *scope) createInstance(descriptor *Descriptor) (any, error) {
 			regDescriptor := descriptor.outputForField(reg.Name)
 			if regDescriptor == nil {
 				regDescriptor = s.rootProvider.findDescriptor(reg.Type, regKey)
+			} else if !s.rootProvider.isRegistered(regDescriptor) {
+				continue // this output was removed from the collection before Build: it is not a service
 			}
 
 			if regDescriptor == descriptor || (reg.Type == descriptor.Type && regKey == descriptor.Key) {
@@ -730,6 +732,10 @@ func (s *scope) createInstance(descriptor *Descriptor) (any, error) {
 				serviceDescriptor = s.rootProvider.findDescriptor(ret.Type, nil)
 			}
 			position++
+
+			if serviceDescriptor != nil && !s.rootProvider.isRegistered(serviceDescriptor) {
+				continue // this output was removed from the collection before Build: it is not a service
+			}
 
 			if serviceDescriptor == nil {
 				return nil, &ResolutionError{
@@ -800,7 +806,7 @@ func (d *Descriptor) outputForField(fieldName string) *Descriptor {
 // instance is already tracked for disposal by the alias that created it.
 func (s *scope) shareWithAliases(descriptor *Descriptor, instance any) {
 	for _, alias := range descriptor.aliases {
-		if alias == descriptor {
+		if alias == descriptor || !s.rootProvider.isRegistered(alias) {
 			continue
 		}
 
